@@ -56,11 +56,12 @@ def _(eng, ci, a, dt):
 @icp('language::get_language', 'fn get_language')
 def _(eng, ci, a, dt):
     from .mcore import str_bytes, concrete_bytes
-    from .rtm import _language_en
-    lang = concrete_bytes(str_bytes(a[0]))
-    if lang != b'en':
-        raise Unsupported('get_language(%r)' % (lang,))
-    return ok(Ref([_language_en(eng)], 0))
+    from .rtm import _language, _language_tables
+    lang = concrete_bytes(str_bytes(a[0])).decode('utf-8', 'replace')
+    if lang not in _language_tables(eng):
+        from .mcore import mkstr
+        return err(mkstr("Language is not supported: '%s'" % lang))
+    return ok(Ref([_language(eng, lang)], 0))
 
 
 @icp('language::get_default_language', 'fn get_default_language')
